@@ -4,6 +4,26 @@ from vlib.core import Check, ROOT
 from vlib.xh import Harness, Batch
 
 
+NAME_WITNESS = '''\
+import sys, os, tempfile, warnings, logging; warnings.simplefilter('ignore'); logging.disable(logging.CRITICAL)
+import openpyxl
+from openpyxl.workbook.defined_name import DefinedName
+import formulas
+os.chdir(tempfile.mkdtemp())
+wb = openpyxl.Workbook(); ws = wb.active; ws.title = 'S'; ws['A1'] = 3; ws['A2'] = '=A1*2'
+wb.defined_names['TOTAL'] = DefinedName('TOTAL', attr_text='S!$A$2')
+wb.save('b.xlsx')
+k = "'[b.xlsx]'!TOTAL"
+full = formulas.ExcelModel().loads('b.xlsx').finish().calculate()[k]
+part = formulas.ExcelModel().from_ranges(k).finish().calculate()[k]
+f = lambda v: str(getattr(v, 'value', v))
+print('TOTAL fully loaded:', f(full), '; requested through from_ranges:', f(part))
+if f(full) != f(part):
+    print('REPRODUCED: a defined name requested as an output is not loaded'); sys.exit(1)
+sys.exit(0)
+'''
+
+
 def run(tier, seed):
     ck = Check('C15', tier, seed, level='exploration')
     import formulas.excel as EX
@@ -11,15 +31,16 @@ def run(tier, seed):
               EX.ExcelModel.compile_cell, EX.ExcelModel.finish)
     ck.assume('the workbook is a real .xlsx file written by the harness with openpyxl (two sheets referring to each other, whole-column and whole-row references, a defined name, a two-cell array formula, cells reading its spilled cell alone or inside a larger rectangle, and a second workbook whose sheet has the same title but fewer used rows); two constants and the set of requested outputs are boolean selectors; every path loads the file twice (fully, and from the chosen outputs) and calculates natively',
               'completing and finishing the partial model again must leave its node set and its results unchanged')
-    ck.out_of_scope('output sets other than the listed ones (18 single outputs, 13 chosen combinations, and in the thorough tier a seeded sample up to 256 sets)', 'whole-column references beyond the few listed paths (the library assembles all 1048576 cells of the column: 10 s and several GB per model)', 'workbooks other than the harness template',
+    ck.out_of_scope('output sets other than the listed ones (19 single outputs, 14 chosen combinations, and in the thorough tier a seeded sample up to 256 sets)', 'whole-column references beyond the few listed paths (the library assembles all 1048576 cells of the column: 10 s and several GB per model)', 'workbooks other than the harness template',
                     'symbolic contents (openpyxl / schedula cannot carry symbolic values)')
+    ck.check_known_witness('C15-defined-name-as-requested-output', NAME_WITNESS)
     quick = tier == 'quick'
     src = open(os.path.join(ROOT, 'harness', 'c15_ranges.py')).read()
-    nout = 18
+    nout = 19
     ORDER = 1 << nout                      # bit 15: the request is made in reverse order
     masks = [1 << b for b in range(nout)]
     masks += [3, 96, 640, 1025, 45, (1 << nout) - 1, ((1 << nout) - 1) | ORDER, (3 << 13) | 2 | ORDER, (3 << 13) | 2,
-              (1 << 12) | (1 << 10), (1 << 11) | 16 | ORDER, (1 << 16) | (1 << 17) | ORDER, (1 << 15) | (1 << 16)]
+              (1 << 12) | (1 << 10), (1 << 11) | 16 | ORDER, (1 << 16) | (1 << 17) | ORDER, (1 << 15) | (1 << 16), (1 << 18) | 1]
     if not quick:
         import random
         rnd = random.Random(seed)
@@ -38,7 +59,7 @@ def run(tier, seed):
                 s = src.replace('__FIX_A__', str(a)).replace('__MASKS__', repr(mg)).replace('__WHOLE__', 'row')
                 h = Harness(ck, 'c15_ranges_a%d_g%d' % (a, g), s); hs.append(h)
                 batch.add(h, 600 if quick else 3000, only=['ranges_ok'], ppt=200,
-                          bounds='whole-ROW references; DATA!A1 = pool value #%d, DATA!A2 any of 8 pool values, %d of the %d listed output sets (of 18 formula outputs in two workbooks, either request order)' % (
+                          bounds='whole-ROW references; DATA!A1 = pool value #%d, DATA!A2 any of 8 pool values, %d of the %d listed output sets (of 19 formula outputs in two workbooks, either request order)' % (
                               a, len(mg), len(masks)))
         # whole-COLUMN references assemble a million cells per model (10 s and 2-5 GB a path): few paths
         for a in ((0,) if quick else (0, 4)):
